@@ -1,4 +1,4 @@
-\* BoundedPool with the repaired admission (FixF4): 2 producers x 2 Submit/SubmitWait, QueueSize 2, 1 worker, Close anywhere.
+\* BoundedPool as the code is (admission lock, FixF4): 2 producers x 2 Submit/SubmitWait, QueueSize 2, 1 worker, Close anywhere.
 SPECIFICATION Spec
 CONSTANTS
   NP = 2
